@@ -150,3 +150,11 @@ reg("C16", "sched", "model_checking",
     "(and not before one timeout); a peer answering with latency 0 / half / timeout-1/4 / exactly the timeout / alternating is never reported, whatever the data traffic.",
     "Trusted: scheduler virtual clock and tie exploration; region argument for the quarter grid (DESIGN.md C16).",
     "DESIGN.md section 6 C16")
+
+reg("C12", "sched", "model_checking",
+    "exhaustive short-write compositions (single thread) and systematic schedule exploration of 2-3 real threads on one WebSocket object under a controlled scheduler (iterative preemption bounding at lock / transport operations and at every executed library line)",
+    "Short writes: every composition for frames up to 12 bytes, boundary splits with bounded deviations for 130 / 70000-byte payloads: the accepted bytes are exactly one frame. "
+    "Threads: 2 and 3 senders with a transport accepting everything / one byte / half, 2 receivers through recv() on a stream with fragmented messages and a ping, "
+    "2 receivers through recv_frame(), and a sender racing with the pong of a receiver: the wire carries whole frames in a serial order and every message is delivered intact to exactly one receiver.",
+    "Trusted: scheduler (one thread runs at a time; scheduling points at every simulated lock/transport operation, optionally every line). Bounded by preemptions; no free-running race detector exists for Python.",
+    "DESIGN.md section 6 C12")
